@@ -563,7 +563,8 @@ Record gpres (R : grec) : Prop := mkGP {
   gp_arith : forall k sp a b, pres (g_arith R k sp a b);
   gp_div : forall sp a b, pres (g_div R sp a b);
   gp_divres : forall sp a b, pres (g_divres R sp a b);
-  gp_copy : forall a m, framed (g_copy R a m)
+  gp_copy : forall a m, framed (g_copy R a m);
+  gp_neg : forall sp a, pres (g_neg R sp a)
 }.
 
 Lemma pres_iter2 (f : tyid -> tyid -> M unit) : (forall x y, pres (f x y)) -> forall xs ys, pres (iter2 f xs ys).
@@ -612,6 +613,7 @@ Ltac pstep R P :=
   | |- pres (g_div R _ _ _) => apply (gp_div R P)
   | |- pres (g_divres R _ _ _) => apply (gp_divres R P)
   | |- pres (g_copy R _ _) => apply framed_pres, (gp_copy R P)
+  | |- pres (g_neg R _ _) => apply (gp_neg R P)
   | |- pres (unify R _ _ _) => unfold unify
   | |- pres (unify_option R _ _ _) => unfold unify_option
   | |- pres (copy R _) => unfold copy
@@ -630,6 +632,9 @@ Proof. unfold div_body. pauto R P. Qed.
 
 Lemma pres_divres_body R (P : gpres R) sp a b : pres (divres_body R sp a b).
 Proof. unfold divres_body. pauto R P. Qed.
+
+Lemma pres_neg_body R (P : gpres R) sp a : pres (neg_body R sp a).
+Proof. unfold neg_body. pauto R P. Qed.
 
 Lemma pres_constant_index R (P : gpres R) sp a i r : pres (constant_index R sp a i r).
 Proof. unfold constant_index. pauto R P. Qed.
@@ -985,13 +990,14 @@ Theorem gfix_pres : forall g, gpres (gfix g).
 Proof.
   induction g as [|g IH]; cbn [gfix].
   - constructor; intros; try apply pres_oof. intros s a' s' _ H. discriminate.
-  - constructor; cbn [gstep g_unify g_check g_arith g_div g_divres g_copy]; intros.
+  - constructor; cbn [gstep g_unify g_check g_arith g_div g_divres g_copy g_neg]; intros.
     + intros s r s' W H. destruct (unify_body_spec _ IH _ _ _ _ _ _ _ W H) as (X & Y & _). auto.
     + now apply pres_check_body.
     + now apply pres_arith_body.
     + now apply pres_div_body.
     + now apply pres_divres_body.
     + now apply framed_copy_body.
+    + now apply pres_neg_body.
 Qed.
 
 (* fn copy: a fresh class whose head has the shape (and, for function types, the purity) of the original's;
@@ -1281,6 +1287,7 @@ Ltac prs1 :=
   | P : gpres ?G |- pres (g_div ?G _ _ _) => apply (gp_div G P)
   | P : gpres ?G |- pres (g_divres ?G _ _ _) => apply (gp_divres G P)
   | P : gpres ?G |- pres (g_copy ?G _ _) => apply framed_pres, (gp_copy G P)
+  | P : gpres ?G |- pres (g_neg ?G _ _) => apply (gp_neg G P)
   | P : apres ?R |- pres (r_expr ?R _ _) => apply (ap_expr R P)
   | P : apres ?R |- pres (r_stmt ?R _ _) => apply (ap_stmt R P)
   | P : apres ?R |- pres (r_type ?R _ _) => apply (ap_type R P)
